@@ -213,9 +213,11 @@ def region(s, p, rel=1e-8):
                     if abs(r * np.sin(dq)) <= t:
                         tags.append("side-plane")
                         break
-            # exactly (to 1e-13 r2, inside the library's documented 1e-12 on-surface tolerance) on the magnet
-            # itself - face, edge, corner, apex - and not on an extension of these sets
-            e = 1e-13 * r2
+            # exactly on the magnet itself - face, edge, corner, apex - and not on an extension of these sets:
+            # to 1e-14 r2, the margin the library itself grants for "numerical fluctuations (e.g. due to
+            # rotations)"; between 1e-14 and its 1e-12 `close` tolerance the masks are inconsistent near edges and
+            # corners, which is the near-coincidence mechanism of the known finding
+            e = 1e-14 * r2
             ph = np.arctan2(p[1], p[0]) if r > 0 else 0.0
             a1, a2 = np.deg2rad(p1), np.deg2rad(p2)
 
@@ -238,6 +240,7 @@ def region(s, p, rel=1e-8):
         v = np.array(s["vertices"], float)
         tris = [v] if c == "Triangle" else list(G.mesh_tris(s))
         inplane = online = False
+        tmax = 0.0
         for tr in tris:
             n = np.cross(tr[1] - tr[0], tr[2] - tr[0])
             n /= np.linalg.norm(n)
@@ -248,10 +251,13 @@ def region(s, p, rel=1e-8):
                 e = (b - a) / np.linalg.norm(b - a)
                 if np.linalg.norm(np.cross(p - a, e)) <= t:
                     online = True
+                    tmax = max(tmax, float(np.linalg.norm(p - a) / np.linalg.norm(b - a)))
         if np.min(np.linalg.norm(v - p, axis=1)) <= t:
             tags.append("near-vertex")
         elif online:
             tags.append("edge-line")
+            if tmax >= 1e3:
+                tags.append("edge-line-t>=1e3")   # farther than 1000 lengths of that edge along its line
         elif inplane:
             tags.append("face-plane")
     elif c == "Polyline":
